@@ -109,18 +109,19 @@ def MaxRenamerDepth : Nat := 20
 /-- the closure returned by `renamerFunc`.  `fuel = MaxRenamerDepth - depth`; `stack` is the
     recursion stack used for the cycle check.  A value with a substitution is printed as its
     SCEV, recursively through the same renamer; any other value gets its register name. -/
-def renamer (subs : Val → Option SCEV) : Nat → List Val → Val → Regs → String × Regs
+def renamer (lbl : Nat → String) (subs : Val → Option SCEV) : Nat → List Val → Val → Regs → String × Regs
   | 0, _, _, r => ("<depth-limit>", r)
   | fuel + 1, stack, v, r =>
     if stack.contains v then ("<cycle>", r)
     else
       match subs v with
-      | some scev => scev.render (renamer subs fuel (v :: stack)) r
+      | some scev => scev.render lbl (renamer lbl subs fuel (v :: stack)) r
       | none => normalizeValue v r
 
-/-- `scev.StringWithRenamer(c.renamerFunc())` -/
+/-- `scev.StringWithRenamer(c.renamerFunc())`; every loop carries the canonical name of its header
+    block as label (`labelLoops`, run right after the block names are assigned) -/
 def Canon.renderSCEV (c : Canon) (s : SCEV) (r : Regs) : String × Regs :=
-  s.render (renamer c.sub? MaxRenamerDepth []) r
+  s.render c.blockName (renamer c.blockName c.sub? MaxRenamerDepth []) r
 
 /-- `Canonicalizer.funcRefName`: the function under analysis is `<self>`, members of its own closure
     tree are named relative to the outermost enclosing function, everything else by its qualified
